@@ -470,47 +470,75 @@ def initial_store(obj, case, extra_size, extra_bytes, ids):
     }
 
 
-def run_case(case, observer=None):
-    """Run the case on the real code.  Returns (request line for the driver or None if outside the model,
-    list of per-item impl strings, object).  `observer(obj, item, before, outcome, exc, decl)` is called after
-    every item with a snapshot taken before it (the oracles live in the property modules)."""
+BOUNDARY = ('copy', 'reindex')
+
+
+def run_segments(case, observer=None):
+    """Run the case on the real code.  The operations `copy` / `reindex` replace the object under test by the result
+    (`obj.copy()`, `obj.reindex(<span spec>)`) and start a new *segment*: the model is restarted from the state of the
+    new object as observed (reindex itself belongs to C12), so that everything after the boundary is predicted from
+    the new object's own span and data alone.  Returns (segments, obj) with segments = [{'line': request line or
+    None if outside the model, 'impl': per-item impl strings, 'first': index of the segment's first item}].
+    `observer(obj, item, before, outcome, exc, decl)` is called after every item (also after a boundary item, with
+    the NEW object) with a snapshot taken before it."""
     obj, extra_size, extra_bytes = build_object(case)
     ids = LabelIds()
-    store = initial_store(obj, case, extra_size, extra_bytes, ids)
     decl = own_names(obj)           # declaration order as the harness has seen it happen
-    model_items, impl_out = [], []
+    segments = []
+
+    def open_segment(first):
+        segments.append({'store': initial_store(obj, case, extra_size, extra_bytes, ids), 'items': [], 'impl': [],
+                         'first': first})
+
+    open_segment(0)
     if observer:
         if hasattr(observer, 'extra_size'):
             observer.extra_size = extra_size      # Σ submodel.size, computed outside the object under test
         observer(obj, None, None, None, None, decl)
-    for item in case['ops']:
+    for k, item in enumerate(case['ops']):
+        if item['op'] in BOUNDARY:
+            with warnings.catch_warnings():
+                warnings.simplefilter('ignore')
+                obj = obj.copy() if item['op'] == 'copy' else obj.reindex(make_span(item['span']))
+            open_segment(k + 1)
+            if observer:
+                observer(obj, item, None, 'ok', None, decl)
+            continue
         alts = (closest(item['name'], decl) if item['op'] == 'setAttr' else
                 closest('values', decl) if item['op'] == 'setValues' else
                 closest('strict', decl) if item['op'] == 'setStrict' else None)
         before = snapshot(obj) if observer else None
         out, exc = apply_item(obj, item)
+        seg = segments[-1]
         if item['op'] in READS:
-            impl_out.append(out)
+            seg['impl'].append(out)
         else:
             if item['op'] == 'addVariable' and out == 'ok':
                 decl.append(item['name'])
-            impl_out.append(out + '|' + dump_state(obj))
-        model_items.append(model_item(item, ids, alts))
+            seg['impl'].append(out + '|' + dump_state(obj))
+        seg['items'].append(model_item(item, ids, alts))
         if observer:
             observer(obj, item, before, out, exc, decl)
-    line = None
-    if store is not None:
-        line = 'hist\t' + json.dumps({'store': store, 'ops': model_items})
-    return line, impl_out, obj
+    for seg in segments:
+        seg['line'] = (None if seg['store'] is None else
+                       'hist\t' + json.dumps({'store': seg['store'], 'ops': seg['items']}))
+    return segments, obj
 
 
-def compare(rep, what, case, line, impl_out, reply):
-    model_out = reply.split('\t')
+def run_case(case, observer=None):
+    """Single-segment form (no `copy` / `reindex` items): (request line or None, per-item impl strings, object)."""
+    segments, obj = run_segments(case, observer)
+    assert len(segments) == 1
+    return segments[0]['line'], segments[0]['impl'], obj
+
+
+def compare(rep, what, case, line, impl_out, reply, first=0):
+    model_out = reply.split('\t') if impl_out else []
     if len(model_out) != len(impl_out):
         rep.disagree(what + ' (reply length)', case, reply[:500], impl_out[:5])
         return False
     for k, (a, b) in enumerate(zip(model_out, impl_out)):
         if a != b:
-            rep.disagree(what, {'case': case, 'first_differing_item': k, 'item': case['ops'][k]}, a, b)
+            rep.disagree(what, {'case': case, 'first_differing_item': first + k, 'item': case['ops'][first + k]}, a, b)
             return False
     return True
